@@ -28,7 +28,7 @@ impl<T: BinaryDeserializer> BinaryDeserializer for Tolerant<T> {
 
 impl<T: Model> Model for Tolerant<T> {
     fn ty() -> Ty {
-        Ty::Wrap(Box::new(T::ty()))
+        Ty::Lenient(Box::new(T::ty()))
     }
     fn from_val(v: &Val) -> Self {
         Tolerant(Some(T::from_val(v)))
